@@ -422,6 +422,47 @@ def check_radiation(ctx, prog, rule="c20.rad"):
                               % (fn_.body.names.get(l, "_%d" % l), fn_.path.split("::")[-1], val), fn_.loc(d[3].get("ln") if d[0] == "st" else d[2].get("ln")))
     ctx.floor(rule, "solar functions examined for overwritten parameters", nfun, 25)
     ctx.ok(rule, rule + "|params", "no parameter of the %d functions of climate::solar is overwritten" % nfun, None)
+    # incidence angle (ISO 52010-1 eq. 17): the angle between the sun direction and the outward normal of a surface of tilt b, azimuth g,
+    # written with the model's conventions (south = 0, east positive): cos(theta) = sd sw cb - sd cw sb cg + cd cw cb ch + cd sw sb cg ch + cd sb sg sh
+    af = prog.find("climate::solar::angle_sol_surf")
+    lmA = {"declination": "d", "hourangle": "h", "latitude": "w", "surf_tilt": "b", "surf_azimuth": "g"}
+    cmA = {"sind": "sind", "cosd": "cosd", "acosd": "acosd"}
+    nzA, codeA = norm_of(prog, af, lmA, cmA)
+    refA = nzA.ref("acosd(sind(d)*sind(w)*cosd(b) - sind(d)*cosd(w)*sind(b)*cosd(g) + cosd(d)*cosd(w)*cosd(b)*cosd(h) + cosd(d)*sind(w)*sind(b)*cosd(g)*cosd(h) "
+                   "+ cosd(d)*sind(b)*sind(g)*sind(h))")
+    if codeA.equals(refA) and not nzA.unknown:
+        ctx.ok(rule, rule + "|angle_sol_surf", "incidence angle = acos of the five-term dot product of sun direction and surface normal (eq. 17)", af.loc())
+    else:
+        ctx.violation(rule, rule + "|angle_sol_surf", "angle_sol_surf normalises to %s, expected the dot product of eq. 17" % str(codeA)[:200], af.loc())
+    # every place that reports an incidence angle takes it from angle_sol_surf with (declination, hour angle, latitude, tilt, azimuth) in that order
+    nang = 0
+    for fn_ in sorted(prog.fns.values(), key=lambda f: f.id):
+        if fn_.crate != "climate" or fn_.raw.get("impl_derived") or fn_.root != fn_.id:
+            continue
+        sc_ = Scope(prog, fn_)
+        for b, i, st in fn_.body.statements():
+            if st["s"] == "assign" and st["rv"]["r"] == "agg" and st["rv"].get("adt", "").endswith("SunSurfaceAngles"):
+                node = sc_.rvalue(st["rv"])
+                fl = dict(zip(node[2], node[3]))
+                a = strip(fl["angle"])
+                nang += 1
+                key = "%s|incidence|%s" % (rule, fn_.path.split("::")[-1])
+                names = [leaf_name(strip(x)) for x in a[2]] if a[0] == "call" else []
+                if a[0] == "call" and short_callee(a[1]) == "angle_sol_surf" and names[:2] == ["declination", "hourangle"] and (names[2] or "").endswith("latitude") \
+                        and names[3:] == ["surf_tilt", "surf_azimuth"]:
+                    ctx.ok(rule, key, "SunSurfaceAngles.angle = angle_sol_surf(declination, hourangle, latitude, tilt, azimuth)", fn_.loc(st.get("ln")))
+                elif a[0] == "call" and short_callee(a[1]) == "angle_sol_surf":
+                    ctx.violation(rule, key, "angle_sol_surf is called with %s, expected (declination, hourangle, latitude, surf_tilt, surf_azimuth)" % names, fn_.loc(st.get("ln")))
+                elif "azimuth_sol_surf(" in show(a):
+                    # positive evidence: azimuth_sol_surf (eq. 18) is hourangle - surface azimuth; a formula for the incidence angle in terms of the sun's position
+                    # relative to the surface needs the *solar* azimuth minus the surface azimuth, which differs from it away from solar noon
+                    ctx.violation(rule, key, "the incidence angle reported by %s is %s: it is computed from azimuth_sol_surf = hour angle - surface azimuth (eq. 18) where the "
+                                  "sun's azimuth relative to the surface is needed; the two agree only at solar noon (or for a horizontal surface)"
+                                  % (fn_.path.split("::")[-1], show(a)[:80]), fn_.loc(st.get("ln")))
+                else:
+                    raise AnalysisError("%s reports an incidence angle computed as %s, not through angle_sol_surf (eq. 17): an alternative formula this rule cannot compare"
+                                        % (fn_.path.split("::")[-1], show(a)[:100]))
+    ctx.floor(rule, "SunSurfaceAngles construction sites", nang, 1)
     # reference wiring of radiation_for_surface (ISO 52010 data flow): which quantity each model function receives
     rf = prog.find("climate::solar::radiation_for_surface")
     rsc = Scope(prog, rf)
